@@ -54,12 +54,12 @@ impl PanicInfo {
             }
             None => loc,
         };
-        let mut msg: String = self.message.chars().take(60).collect();
-        // numbers in messages (indices, lengths) vary with the input: normalise
-        msg = msg.chars().map(|c| if c.is_ascii_digit() { '#' } else { c }).collect();
+        // numbers in messages (indices, lengths) vary with the input: normalise, then shorten
+        let mut msg: String = self.message.chars().map(|c| if c.is_ascii_digit() { '#' } else { c }).collect();
         while msg.contains("##") {
             msg = msg.replace("##", "#");
         }
+        let msg: String = msg.chars().take(48).collect();
         format!("{loc}:{msg}")
     }
 }
